@@ -144,7 +144,9 @@ func (P *Program) expandAuto(c *Contract, fn *ssa.Function) error {
 		"PrintCtx.jsonMode", "PrintCtx.noColor", "PrintCtx.layout", "PrintCtx.utcTime", "PrintCtx.noQuoted", "PrintCtx.dedupeAttrs",
 		// carried from record to record by the pooled context: the attribute key prefix (restored by every
 		// serializer that sets it) and the grouped-mode switch (never set)
-		"PrintCtx.prefix", "PrintCtx.inGroupedMode"} {
+		"PrintCtx.prefix", "PrintCtx.inGroupedMode",
+		// recorders of what splitFirstAndRestLines answered (C09): only printFirstLineOfMsg's call writes them
+		"ghost.ioRestLines", "ghost.ioEol", "PrintCtx.restLines", "PrintCtx.eol"} {
 		if hasStr(c.NoKeeps, d) {
 			continue
 		}
